@@ -41,15 +41,20 @@ fn analyse(run: &MonRun, tally: &mut Tally, corrupt: Corrupt) -> Vec<Finding> {
     let mut out = report_origins(&run.wrapped.nodes, per_node, tally);
     // result types vs the logical plan's output types
     let logical: Vec<DataType> = run.logical_schema.fields().iter().map(|f| logical_type(f.data_type())).collect();
+    let optimized: Option<Vec<DataType>> = run.optimized_schema.as_ref().map(|s| s.fields().iter().map(|f| logical_type(f.data_type())).collect());
     for b in &run.batches {
         tally.add("result_batches", "result", 1);
         let got: Vec<DataType> = b.columns().iter().map(|c| logical_type(c.data_type())).collect();
         if got != logical {
+            // DataFrame::schema() is the schema of the plan as built by the SQL planner; the analyzer (type
+            // coercion) runs later. A mismatch that is gone once the plan is analyzed + optimized is keyed apart.
+            let sig = if optimized.as_ref() == Some(&got) { "logical-physical-type-mismatch/result[before-type-coercion-only]" } else { "logical-physical-type-mismatch/result" };
             out.push(Finding {
-                sig: "logical-physical-type-mismatch/result".into(),
+                sig: sig.into(),
                 detail: json!({
                     "what": "the collected result's column types are not logically equivalent to the logical plan's output types (DataFrame::schema)",
                     "logical": run.logical_schema.fields().iter().map(|f| format!("{}: {}", f.name(), f.data_type())).collect::<Vec<_>>(),
+                    "optimized_logical": run.optimized_schema.as_ref().map(|s| s.fields().iter().map(|f| format!("{}: {}", f.name(), f.data_type())).collect::<Vec<_>>()),
                     "collected": b.schema().fields().iter().map(|f| format!("{}: {}", f.name(), f.data_type())).collect::<Vec<_>>(),
                 }),
             });
@@ -124,9 +129,9 @@ fn function_case(rep: &Report, e: &FnEntry, seed: u64, cfg: &Arc<ConfigOptions>,
             continue;
         };
         for (vi, (label, types)) in lists.iter().enumerate() {
-            for vs in 0..2u64 {
+            for vs in 0..3u64 {
                 let mut rng = Rng::derive(seed, &[30, vcommon::fp_str(&e.label), gi as u64, vi as u64, vs]);
-                let n = if vs == 0 { 5 } else { 1 + rng.usize(3) };
+                let n = if vs != 1 { 5 } else { 1 + rng.usize(3) };
                 // logical rows of the canonical types; column-major
                 let rows: Vec<Vec<ScalarValue>> = (0..n).map(|_| pools.row(&mut rng)).collect();
                 let mut cols: Vec<Vec<ScalarValue>> = (0..types.len()).map(|j| rows.iter().map(|r| r[j].clone()).collect()).collect();
@@ -244,7 +249,7 @@ fn run(args: &Args) -> i32 {
     rep.obligation("functions-inspected", rep.seen_count("functions_inspected") * 100 >= fns.len() * 70 || only.is_some(), "at least 70% of the registry's functions must be invoked successfully at least once");
     rep.obligation("function-invocations", rep.get_count("function_invocations") >= 2000 || only.is_some(), "at least 2000 successful invocations");
     vcommon::par::run(args.workers, 0..n_rand, |i| {
-        if rep.violation_count() > 40 || !rep.within_budget(70.0) {
+        if rep.violation_count() > 4000 || !rep.within_budget(args.tier.pick(70.0, 900.0)) {
             return;
         }
         if i % 6 == 5 {
